@@ -24,7 +24,7 @@ RULE = (
 
 
 def gen_case(rng, tier):
-    prof = B.default_profile(rng)
+    prof = B.default_profile(rng, tier)
     prof["w_op"] = max(prof["w_op"], 1)
     prof["l3_kernels"] = True
     prof["multiblock"] = rng.random() < 0.2  # functions with several blocks (cf.br / cf.cond_br)
